@@ -214,7 +214,62 @@ HIST_SIZES = [0, 3, 10, 11, 101]
 def shards(tier, seed):
     out = [("files", size, ci) for size in SIZES[tier] for ci in range(len(CHUNKS))]
     out += [("history", k) for k in range(len(HIST_SIZES))]
+    out += [("pairs", iface) for iface in ("wsgi", "asgi")]
     return out
+
+
+PAIR_REQS = [[], [("Range", "bytes=1-6")], [("Range", "bytes=0-1,5-8")], [("Range", "bytes=-3")]]
+
+
+def run_pairs(r, iface):
+    """Two file requests in progress at once on one Files app: every interleaving of the two response iterables (WSGI) /
+    all schedules with <=2 deviations of the two tasks' send events (ASGI); each response must equal the one served alone."""
+    from ..core.explore import dfs
+    t = Tree()
+    try:
+        fa, fb = t.file(10), t.file(11)
+        m = __import__("baize.wsgi" if iface == "wsgi" else "baize.asgi", fromlist=["x"])
+        app = m.Files(t.dir)
+        reqs = [SV.AReq(path="/" + os.path.basename(f), headers=h) for f in (fa, fb) for h in PAIR_REQS]
+        solo = {}
+        for i, q in enumerate(reqs):
+            random.seed(12345)
+            res = SV.run_wsgi(app, SV.to_environ(q)) if iface == "wsgi" else SV.run_asgi(app, SV.to_scope(q), SV.to_messages(q))
+            solo[i] = (res.status, res.header_multiset(), res.body, type(res.exc).__name__ if res.exc else None)
+        for i, j in [(a, b) for a in range(len(reqs)) for b in range(len(reqs)) if a < b]:
+            w = {"pairs": iface, "a": reqs[i].describe(), "b": reqs[j].describe()}
+
+            def check(results, how):
+                r.count("evaluations")
+                r.count("distinct_nontrivial")
+                for k, res in zip((i, j), results):
+                    got = (res.status, res.header_multiset(), res.body, type(res.exc).__name__ if res.exc else None)
+                    exp = solo[k]
+                    # the multipart boundary is random per response: compare with boundaries normalised
+                    if norm_boundary(got) != norm_boundary(exp):
+                        r.violation(f"pairs:{iface}", w, f"{iface} Files: request {reqs[k].path} {reqs[k].headers} served while {reqs[j if k == i else i].path} {reqs[j if k == i else i].headers} was in progress ({how}) differs from the same request served alone: {got!r:.200} vs {exp!r:.200}")
+            if iface == "wsgi":
+                for order in SV.merge_orders(4, 4):
+                    random.seed(12345)
+                    check(SV.run_wsgi_pair(app, [SV.to_environ(reqs[i]), SV.to_environ(reqs[j])], order), f"order {order}")
+            else:
+                def run(prefix):
+                    random.seed(12345)
+                    return SV.run_asgi_pair(prefix, app, [SV.to_scope(reqs[i]), SV.to_scope(reqs[j])], [SV.to_messages(reqs[i]), SV.to_messages(reqs[j])])
+                dfs(run, lambda x: check(x.obs, f"schedule {x.choices}"), bound=2)
+        r.sample({"pairs": iface, "requests": [q.describe() for q in reqs[:2]]})
+    finally:
+        t.close()
+
+
+def norm_boundary(obs):
+    status, headers, body, exc = obs
+    ct = dict(headers).get("content-type", "")
+    m = re.search(r"boundary=(\w+)", ct)
+    if not m:
+        return obs
+    b = m.group(1)
+    return (status, [(k, v.replace(b, "BOUNDARY")) for k, v in headers], body.replace(b.encode(), b"BOUNDARY"), exc)
 
 
 def run_history(r, first):
@@ -249,6 +304,9 @@ def run_shard(desc, tier):
     r = R()
     if desc[0] == "history":
         run_history(r, HIST_SIZES[desc[1]])
+        return r
+    if desc[0] == "pairs":
+        run_pairs(r, desc[1])
         return r
     _, size, ci = desc
     chunk = CHUNKS[ci]
@@ -304,6 +362,9 @@ def finish(merged, tier):
 
 def replay(w):
     r = R()
+    if "pairs" in w:
+        run_pairs(r, w["pairs"])
+        return bool(r.viol), {"violations": sorted(r.viol), "texts": [v[2][:300] for v in r.viol.values()]}
     if "history" in w:
         run_history(r, w["history"][0])
         r.viol = {k: v for k, v in r.viol.items() if v[1]["history"] == w["history"] and v[1]["iface"] == w["iface"]}
